@@ -48,6 +48,7 @@ def run(prop, tier, seed, replay=None):
         for sv in SERVERS:
             for (off, ln, fl) in ((0, 20000, 100000), (1000, 20000, 100000), (90000, 10000, 100000), (0, 100000, 100000), (16384, 1, 16385)):
                 cases.append({"kind": "get", "server": sv, "off": off, "len": ln, "flen": fl})
+        cases.append({"kind": "farfiles"})      # pieces on both sides of offset 2^32 of a torrent longer than 4 GiB
         HSERVERS = ["h-exact", "h-inclusive", "h-nolength-excess", "h-nolength-short", "h-short-length", "h-truncated", "h-overlong", "h-206", "h-503",
                     "h-bad-length", "h-reset"]
         for sv in HSERVERS:
